@@ -60,9 +60,10 @@ def check_impl(crate, b, res):
     cls = classify(s)
     if cls is None:
         return None
-    v = View(b)
+    import inline
+    v = View(inline.inlined(crate, b))
     bs = BodySites(v)
-    cl = [(View(c), None) for c in closures_of(crate, b)]
+    cl = [(View(inline.inlined(crate, c)), None) for c in closures_of(crate, b)]
     cl = [(cv, BodySites(cv)) for cv, _ in cl]
     out = []
     ob = 0
@@ -224,6 +225,9 @@ def check_impl(crate, b, res):
                 cv0, cbs0 = by_path[pth]
                 if _closure_reports_bound(cv0, cbs0, want_bound, alt=(want_bound % (2 ** bits)) if cls == "nonzero" else None):
                     okb = True
+            # ... or directly on the arm (`match <$t>::try_from(x) { Ok(n) => Ok(n), Err(_) => Err(<report>) }`)
+            if not okb and _closure_reports_bound(v, bs, want_bound, alt=(want_bound % (2 ** bits)) if cls == "nonzero" else None, payload=payload, region=own):
+                okb = True
             if not okb:
                 out.append(fnd("C05.BOUND", v, "the out-of-range report of the %s arm does not name the payload and the bound %d of %s" % (var, want_bound, s)))
         if cls == "nonzero":
@@ -384,17 +388,21 @@ def _exact_chain(crate, v, t, var, self_s, cls, src_ty, closures):
     return "closure body not found"
 
 
-def _closure_reports_bound(cv, cbs, want_bound, alt=None):
+def _closure_reports_bound(cv, cbs, want_bound, alt=None, payload=None, region=None):
     """the closure builds Unexpected{msg: format!(.. x .. bound ..)} : among the format arguments one is the captured payload, one the constant bound"""
-    if not any(s.ek == "Unexpected" and s.handling == "collapsed" for s in cbs.sites):
+    if not any(s.ek == "Unexpected" and s.handling == "collapsed" and (region is None or s.bb in region) for s in cbs.sites):
         return False
     saw_x = False
     saw_bound = False
     for bb, c in cv.calls():
+        if region is not None and bb not in region:
+            continue
         if c.fn is not None and c.path and "fmt::rt::Argument" in c.path:
             a = cv.origin(cv.blocks[bb]["term"]["args"][0])
             a = strip_refs(canon(cv, a))
-            if a[0] == "field" and a[1] == ("param", 1) and a[3] == "x":
+            if payload is None and a[0] == "field" and strip_refs(a[1]) == ("param", 1) and a[2] is None:
+                saw_x = True     # the captured payload (whatever the binding is called)
+            if payload is not None and a == payload:
                 saw_x = True
             if a == ("const", "int", want_bound) or (alt is not None and a == ("const", "int", alt)):
                 saw_bound = True  # (NonZero constants are exported as the raw bits of their integer)
